@@ -157,3 +157,908 @@ Proof.
   apply orb_false_iff in H. destruct H as [H1 H2]. apply orb_false_iff in H1. destruct H1 as [H1 _].
   rewrite H1. simpl. apply IH, H2.
 Qed.
+
+(* ---------------------------------------------------------------- CommonValidator *)
+
+Definition all_known (l : list lattr) : Prop := forall a, In a l -> la_kind a <> KUnknown.
+
+(* when attribute [a], preceded by [pre], gets no error-severity diagnostic *)
+Definition attr_ok (pre : list lattr) (a : lattr) : Prop :=
+  la_value a <> []
+  /\ (la_kind a = KBody -> ~ In KForm (map la_kind pre))
+  /\ (la_kind a = KForm -> ~ In KBody (map la_kind pre))
+  /\ (is_param_kind (la_kind a) = true -> ~ In (la_value a) (map la_value pre))
+  /\ (la_kind a = KMethod -> In (la_value a) supported_verbs).
+
+Fixpoint attrs_ok (pre l : list lattr) : Prop :=
+  match l with
+  | [] => True
+  | a :: t => attr_ok pre a /\ attrs_ok (pre ++ [a]) t
+  end.
+
+Lemma attrs_ok_split pre l :
+  attrs_ok pre l <-> forall l1 a l2, l = l1 ++ a :: l2 -> attr_ok (pre ++ l1) a.
+Proof.
+  revert pre; induction l as [|x t IH]; intros pre; simpl.
+  - split; [|auto]. intros _ l1 a l2 H. destruct l1; discriminate.
+  - rewrite IH. split.
+    + intros [H0 H] l1 a l2 E. destruct l1 as [|y l1]; simpl in E; inversion E; subst.
+      * rewrite app_nil_r. assumption.
+      * specialize (H l1 a l2 eq_refl). rewrite <- app_assoc in H. exact H.
+    + intros H. split.
+      * specialize (H [] x t eq_refl). rewrite app_nil_r in H. exact H.
+      * intros l1 a l2 E. subst t. specialize (H (x :: l1) a l2 eq_refl).
+        rewrite <- app_assoc. exact H.
+Qed.
+
+Lemma count_kind_pos k seen : Nat.ltb 0 (count_kind k seen) = true <-> In k seen.
+Proof.
+  unfold count_kind. rewrite Nat.ltb_lt. induction seen as [|x t IH]; simpl.
+  - split; [lia | tauto].
+  - destruct (akind_eqb k x) eqn:E; simpl.
+    + apply akind_eqb_spec in E; subst. split; [auto | lia].
+    + rewrite IH. split; [auto|]. intros [->|H]; [|assumption].
+      rewrite akind_eqb_refl in E; discriminate.
+Qed.
+
+Lemma count_kind_pos_false k seen : Nat.ltb 0 (count_kind k seen) = false <-> ~ In k seen.
+Proof.
+  rewrite <- count_kind_pos. destruct (Nat.ltb 0 (count_kind k seen)); split; intros H; try discriminate; auto.
+  exfalso; apply H; reflexivity.
+Qed.
+
+Lemma verb_diags_ok i v : no_error (verb_diags i v) = true <-> In v supported_verbs.
+Proof.
+  unfold verb_diags. destruct (smem v supported_verbs) eqn:E.
+  - apply smem_In in E. split; auto.
+  - apply smem_false in E. destruct (smem v other_http_verbs); simpl; split; intros H; try discriminate; contradiction.
+Qed.
+
+Lemma no_error_if_err (c : bool) x y : no_error (if c then [err x y] else []) = negb c.
+Proof. destruct c; reflexivity. Qed.
+
+Lemma no_error_if_warn (c : bool) x y : no_error (if c then [warn x y] else []) = true.
+Proof. destruct c; reflexivity. Qed.
+
+Lemma verb_diags_b i v : no_error (verb_diags i v) = smem v supported_verbs.
+Proof.
+  unfold verb_diags. destruct (smem v supported_verbs); [reflexivity|].
+  destruct (smem v other_http_verbs); reflexivity.
+Qed.
+
+(* the error-relevant part of validateAnnotation, without positions *)
+Definition attr_okb (seen : list akind) (uniq : list str) (a : lattr) : bool :=
+  match rule_of (la_kind a) with
+  | None => false
+  | Some ru =>
+      negb (ru_requires_value ru && is_nil (la_value a))
+      && negb (existsb (fun k => Nat.ltb 0 (count_kind k seen)) (ru_mutex ru))
+      && negb (ru_unique ru && negb (is_nil (la_value a)) && smem (la_value a) uniq)
+      && match la_kind a with KMethod => smem (la_value a) supported_verbs | _ => true end
+  end.
+
+Lemma common_attr_okb seen uniq i a : no_error (common_attr seen uniq i a) = attr_okb seen uniq a.
+Proof.
+  unfold common_attr, attr_okb. destruct (rule_of (la_kind a)) as [ru|]; [|reflexivity].
+  rewrite !no_error_app, !no_error_if_err, no_error_if_warn.
+  assert (E : no_error (match la_alias a, ru_props ru with
+         | ANone, _ => []
+         | _, PropsNone => [warn CPropsShouldNotExist (AnComment i)]
+         | _, PropsNoName => [warn CPropShouldNotExist (AnComment i)]
+         | AStr _, PropsName => []
+         | ANonStr, PropsName => [warn CPropInvalidValue (AnComment i)]
+         end) = true).
+  { destruct (la_alias a), (ru_props ru); reflexivity. }
+  rewrite E.
+  destruct (la_kind a); rewrite ?verb_diags_b; simpl; rewrite ?andb_true_r, ?andb_assoc; reflexivity.
+Qed.
+
+Lemma common_attr_ok pre seen uniq i a :
+  la_kind a <> KUnknown ->
+  (forall k, In k seen <-> In k (map la_kind pre)) ->
+  (forall v, In v uniq <-> In v (map la_value pre)) ->
+  (no_error (common_attr (la_kind a :: seen) uniq i a) = true <-> attr_ok pre a).
+Proof.
+  intros Hk Hseen Huniq. rewrite common_attr_okb. unfold attr_ok, attr_okb.
+  assert (Hm : forall k, k <> la_kind a ->
+             (negb (Nat.ltb 0 (count_kind k (la_kind a :: seen))) = true <-> ~ In k (map la_kind pre))).
+  { intros k Hne. rewrite negb_true_iff, count_kind_pos_false. simpl. rewrite Hseen. split.
+    - intros H H'. apply H. right; assumption.
+    - intros H [E|H']; [congruence | contradiction]. }
+  assert (Hu : negb (smem (la_value a) uniq) = true <-> ~ In (la_value a) (map la_value pre)).
+  { rewrite negb_true_iff, smem_false, Huniq. tauto. }
+  assert (Hv : negb (is_nil (la_value a)) = true <-> la_value a <> []).
+  { rewrite negb_true_iff. apply is_nil_false. }
+  destruct (la_kind a) eqn:K; try congruence;
+    cbn [rule_of ru_requires_value ru_allows_multiple ru_unique ru_mutex ru_props existsb is_param_kind andb orb negb];
+    rewrite ?orb_false_r, ?andb_true_r, ?andb_true_iff.
+  - (* Method *) rewrite Hv, smem_In. split.
+    + intros [H1 H2]. repeat split; try discriminate; auto.
+    + intros (H1 & _ & _ & _ & H5). split; auto.
+  - (* Route *) rewrite Hv. split.
+    + intros H1. repeat split; try discriminate; auto.
+    + intros (H1 & _). auto.
+  - (* Path *) destruct (is_nil (la_value a)) eqn:Ev; simpl.
+    + apply is_nil_spec in Ev. split; [intros [H _]; discriminate | intros [H _]; congruence].
+    + apply is_nil_false in Ev. rewrite Hu. split.
+      * intros [_ H]. repeat split; try discriminate; auto.
+      * intros (_ & _ & _ & H & _). split; auto.
+  - (* Query *) destruct (is_nil (la_value a)) eqn:Ev; simpl.
+    + apply is_nil_spec in Ev. split; [intros [H _]; discriminate | intros [H _]; congruence].
+    + apply is_nil_false in Ev. rewrite Hu. split.
+      * intros [_ H]. repeat split; try discriminate; auto.
+      * intros (_ & _ & _ & H & _). split; auto.
+  - (* Header *) destruct (is_nil (la_value a)) eqn:Ev; simpl.
+    + apply is_nil_spec in Ev. split; [intros [H _]; discriminate | intros [H _]; congruence].
+    + apply is_nil_false in Ev. rewrite Hu. split.
+      * intros [_ H]. repeat split; try discriminate; auto.
+      * intros (_ & _ & _ & H & _). split; auto.
+  - (* Form *) rewrite (Hm KBody) by discriminate.
+    destruct (is_nil (la_value a)) eqn:Ev; simpl.
+    + apply is_nil_spec in Ev. split; [intros [[H _] _]; discriminate | intros [H _]; congruence].
+    + apply is_nil_false in Ev. rewrite Hu. split.
+      * intros [[_ H2] H3]. repeat split; try discriminate; auto.
+      * intros (_ & _ & H3 & H4 & _). repeat split; auto.
+  - (* Body *) rewrite (Hm KForm) by discriminate.
+    destruct (is_nil (la_value a)) eqn:Ev; simpl.
+    + apply is_nil_spec in Ev. split; [intros [[H _] _]; discriminate | intros [H _]; congruence].
+    + apply is_nil_false in Ev. rewrite Hu. split.
+      * intros [[_ H2] H3]. repeat split; try discriminate; auto.
+      * intros (_ & H2 & _ & H4 & _). repeat split; auto.
+  - (* Security *) rewrite Hv. split.
+    + intros H1. repeat split; try discriminate; auto.
+    + intros (H1 & _). auto.
+Qed.
+
+Lemma rule_of_known k : k <> KUnknown -> exists ru, rule_of k = Some ru.
+Proof. destruct k; intros H; try congruence; eexists; reflexivity. Qed.
+
+Lemma common_go_ok : forall l pre seen uniq i,
+  all_known (pre ++ l) ->
+  (forall k, In k seen <-> In k (map la_kind pre)) ->
+  (forall v, In v uniq <-> In v (map la_value pre)) ->
+  (no_error (common_go seen uniq (index_from i l)) = true <-> attrs_ok pre l).
+Proof.
+  induction l as [|a t IH]; intros pre seen uniq i Hk Hs Hu; simpl.
+  - split; auto.
+  - assert (Ka : la_kind a <> KUnknown) by (apply Hk; apply in_or_app; right; left; reflexivity).
+    destruct (rule_of_known _ Ka) as [ru Eru]. rewrite Eru.
+    rewrite no_error_app, andb_true_iff.
+    rewrite (common_attr_ok pre seen uniq i a Ka Hs Hu).
+    rewrite (IH (pre ++ [a]) (la_kind a :: seen) (la_value a :: uniq) (S i)).
+    + tauto.
+    + rewrite <- app_assoc. exact Hk.
+    + intros k. rewrite map_app, in_app_iff. simpl. rewrite Hs. tauto.
+    + intros v. rewrite map_app, in_app_iff. simpl. rewrite Hu. tauto.
+Qed.
+
+Lemma common_diags_ok r :
+  all_known (r_attrs r) -> (no_error (common_diags r) = true <-> attrs_ok [] (r_attrs r)).
+Proof.
+  intros Hk. unfold common_diags, indexed. apply common_go_ok; simpl; auto; tauto.
+Qed.
+
+(* ---------------------------------------------------------------- AnnotationLinkValidator *)
+
+Lemma url_go_errors ri referenced : forall url witnessed, all_errors (url_go ri referenced witnessed url).
+Proof.
+  induction url as [|u t IH]; intros w; simpl; [apply all_errors_nil'|].
+  repeat apply all_errors_app; auto.
+  - apply all_errors_if, all_errors_one.
+  - apply all_errors_if', all_errors_one.
+Qed.
+
+Lemma url_go_nil ri referenced : forall url witnessed,
+  url_go ri referenced witnessed url = [] <->
+  (forall u, In u url -> In u referenced) /\ NoDup url /\ (forall u, In u url -> ~ In u witnessed).
+Proof.
+  induction url as [|u t IH]; intros w; simpl.
+  - split; [intros _; repeat split; [tauto | constructor | tauto] | reflexivity].
+  - destruct (smem u w) eqn:Ew.
+    + apply smem_In in Ew. simpl. split; [discriminate|].
+      intros (_ & _ & H). exfalso. apply (H u); auto.
+    + apply smem_false in Ew. simpl. destruct (smem u referenced) eqn:Er.
+      * apply smem_In in Er. simpl. rewrite IH. split.
+        -- intros (H1 & H2 & H3). repeat split.
+           ++ intros x [<-|Hx]; auto.
+           ++ constructor; [|assumption]. intros Hu. apply (H3 u Hu). left; reflexivity.
+           ++ intros x [<-|Hx]; [assumption|]. intros Hw. apply (H3 x Hx). right; assumption.
+        -- intros (H1 & H2 & H3). inversion H2; subst. repeat split; auto.
+           intros x Hx [<-|Hw]; [contradiction|]. apply (H3 x); auto.
+      * apply smem_false in Er. simpl. split; [discriminate|].
+        intros (H & _). exfalso. apply Er, H. left; reflexivity.
+Qed.
+
+Definition real_aliases (l : list (nat * lattr)) : list str :=
+  flat_map (fun ia => match la_alias (snd ia) with AStr (c :: x) => [c :: x] | _ => [] end) l.
+
+Definition pvalues (l : list (nat * lattr)) : list str := map (fun ia => la_value (snd ia)) l.
+
+Lemma all_errors_cons c an l : all_errors l -> all_errors (err c an :: l).
+Proof. intros H d [<-|Hd]; [reflexivity | auto]. Qed.
+
+Ltac ae :=
+  repeat first [ assumption | apply all_errors_nil' | apply all_errors_one | apply all_errors_cons
+               | apply all_errors_app
+               | match goal with |- all_errors (if ?c then _ else _) => destruct c end ].
+
+Lemma pass2_go_errors fn url : forall l sF sR sA, all_errors (fst (pass2_go fn url sF sR sA l)).
+Proof.
+  induction l as [|[i a] t IH]; intros sF sR sA; simpl; [apply all_errors_nil'|].
+  destruct (la_alias a) as [|x|]; [|destruct (is_nil x)|];
+    match goal with |- context [pass2_go fn url ?f ?r ?s t] => specialize (IH f r s); destruct (pass2_go fn url f r s t) end;
+    simpl in *; ae.
+Qed.
+
+Definition p2_d1 (fn sF : list str) (i : nat) (a : lattr) : list diag :=
+  if smem (la_value a) fn then (if smem (la_value a) sF then [err CMultipleParamRefs (AnValue i)] else [])
+  else [err CPathInvalidRef (AnValue i)].
+Definition p2_d2 (sR : list str) (i : nat) (a : lattr) : list diag :=
+  if smem (la_value a) sR then [err CDuplicatePathParam (AnComment i)] else [].
+Definition p2_d3 (url sA : list str) (i : nat) (a : lattr) : list diag :=
+  match la_alias a with
+  | ANonStr => [err CPropInvalidValue (AnProps i)]
+  | AStr x => if is_nil x then []
+              else (if smem x sA then [err CDuplicatePathAliasRef (AnComment i)] else [])
+                   ++ (if smem x url then [] else [err CPathInvalidRef (AnComment i)])
+  | ANone => []
+  end.
+Definition p2_sF (fn sF : list str) (a : lattr) := if smem (la_value a) fn then la_value a :: sF else sF.
+Definition p2_sR (sR : list str) (a : lattr) := if smem (la_value a) sR then sR else la_value a :: sR.
+Definition p2_sA (sA : list str) (a : lattr) :=
+  match la_alias a with
+  | AStr x => if is_nil x then sA else if smem x sA then sA else x :: sA
+  | _ => sA
+  end.
+
+Lemma pass2_go_cons fn url sF sR sA i a t :
+  pass2_go fn url sF sR sA ((i, a) :: t) =
+  (p2_d1 fn sF i a ++ p2_d2 sR i a ++ p2_d3 url sA i a
+     ++ fst (pass2_go fn url (p2_sF fn sF a) (p2_sR sR a) (p2_sA sA a) t),
+   snd (pass2_go fn url (p2_sF fn sF a) (p2_sR sR a) (p2_sA sA a) t)).
+Proof.
+  cbn [pass2_go]. unfold p2_d1, p2_d2, p2_d3, p2_sF, p2_sR, p2_sA.
+  destruct (la_alias a) as [|x|]; [|destruct (is_nil x)|];
+    match goal with |- context [pass2_go fn url ?f ?r ?s t] => destruct (pass2_go fn url f r s t) end; reflexivity.
+Qed.
+
+Lemma pass2_snd fn url : forall l sF sR sA v,
+  In v (snd (pass2_go fn url sF sR sA l)) <-> In v sF \/ (In v (pvalues l) /\ In v fn).
+Proof.
+  induction l as [|[i a] t IH]; intros sF sR sA v.
+  - simpl. tauto.
+  - rewrite pass2_go_cons. cbn [snd]. rewrite IH. unfold p2_sF, pvalues. cbn [map snd In].
+    destruct (smem (la_value a) fn) eqn:E.
+    + apply smem_In in E. simpl. split.
+      * intros [[<-|H]|[H1 H2]]; auto.
+      * intros [H|[[<-|H1] H2]]; auto.
+    + apply smem_false in E. split.
+      * intros [H|[H1 H2]]; auto.
+      * intros [H|[[<-|H1] H2]]; auto. contradiction.
+Qed.
+
+Lemma p2_d1_nil fn sF i a : p2_d1 fn sF i a = [] <-> In (la_value a) fn /\ ~ In (la_value a) sF.
+Proof.
+  unfold p2_d1. destruct (smem (la_value a) fn) eqn:E1.
+  - apply smem_In in E1. destruct (smem (la_value a) sF) eqn:E2.
+    + apply smem_In in E2. split; [discriminate | tauto].
+    + apply smem_false in E2. tauto.
+  - apply smem_false in E1. split; [discriminate | tauto].
+Qed.
+
+Lemma p2_d2_nil sR i a : p2_d2 sR i a = [] <-> ~ In (la_value a) sR.
+Proof.
+  unfold p2_d2. destruct (smem (la_value a) sR) eqn:E.
+  - apply smem_In in E. split; [discriminate | tauto].
+  - apply smem_false in E. tauto.
+Qed.
+
+Definition real_alias_of (a : lattr) : list str :=
+  match la_alias a with AStr (c :: x) => [c :: x] | _ => [] end.
+
+Lemma p2_d3_nil url sA i a :
+  p2_d3 url sA i a = [] <->
+  la_alias a <> ANonStr /\ (forall x, In x (real_alias_of a) -> ~ In x sA /\ In x url).
+Proof.
+  unfold p2_d3, real_alias_of. destruct (la_alias a) as [|x|].
+  - split; [intros _; split; [discriminate | intros x []] | reflexivity].
+  - destruct x as [|c x]; simpl.
+    + split; [intros _; split; [discriminate | intros x []] | reflexivity].
+    + destruct (smem (c :: x) sA) eqn:E1.
+      * apply smem_In in E1. split; [discriminate|]. intros [_ H]. destruct (H (c :: x)); [left; reflexivity | contradiction].
+      * apply smem_false in E1. destruct (smem (c :: x) url) eqn:E2.
+        -- apply smem_In in E2. simpl. split; [|reflexivity]. intros _. split; [discriminate|].
+           intros y [<-|[]]. split; assumption.
+        -- apply smem_false in E2. simpl. split; [discriminate|]. intros [_ H].
+           destruct (H (c :: x)); [left; reflexivity | contradiction].
+  - split; [discriminate | intros [H _]; congruence].
+Qed.
+
+Lemma p2_sA_In sA a x : ~ (exists y, In y (real_alias_of a) /\ In y sA) ->
+  (In x (p2_sA sA a) <-> In x (real_alias_of a) \/ In x sA).
+Proof.
+  unfold p2_sA, real_alias_of. intros Hn. destruct (la_alias a) as [|y|]; [simpl; tauto| |simpl; tauto].
+  destruct y as [|c y]; simpl; [tauto|].
+  destruct (smem (c :: y) sA) eqn:E.
+  - apply smem_In in E. exfalso. apply Hn. exists (c :: y). split; [left; reflexivity | assumption].
+  - simpl. tauto.
+Qed.
+
+Lemma real_aliases_cons i a t : real_aliases ((i, a) :: t) = real_alias_of a ++ real_aliases t.
+Proof. reflexivity. Qed.
+
+Lemma NoDup_app_iff {A} (l1 l2 : list A) :
+  NoDup (l1 ++ l2) <-> NoDup l1 /\ NoDup l2 /\ (forall x, In x l1 -> In x l2 -> False).
+Proof.
+  induction l1 as [|a l1 IH]; simpl.
+  - split; [intros H; repeat split; [constructor | assumption | tauto] | tauto].
+  - split.
+    + intros H. inversion H as [|? ? Hn Hd]; subst. apply IH in Hd. destruct Hd as (H1 & H2 & H3).
+      repeat split; auto.
+      * constructor; [|assumption]. intros Hi. apply Hn, in_or_app. left; assumption.
+      * intros x [<-|Hx] Hx2; [apply Hn, in_or_app; right; assumption | eauto].
+    + intros (H1 & H2 & H3). inversion H1 as [|? ? Hn Hd]; subst. constructor.
+      * intros Hi. apply in_app_or in Hi. destruct Hi as [Hi|Hi]; [contradiction | apply (H3 a); auto].
+      * apply IH. repeat split; auto. intros x Hx. apply H3. right; assumption.
+Qed.
+
+Lemma pass2_nil fn url : forall l sF sR sA,
+  incl sF sR ->
+  (fst (pass2_go fn url sF sR sA l) = [] <->
+   (forall v, In v (pvalues l) -> In v fn)
+   /\ NoDup (pvalues l) /\ (forall v, In v (pvalues l) -> ~ In v sR)
+   /\ (forall ia, In ia l -> la_alias (snd ia) <> ANonStr)
+   /\ NoDup (real_aliases l) /\ (forall x, In x (real_aliases l) -> ~ In x sA /\ In x url)).
+Proof.
+  induction l as [|[i a] t IH]; intros sF sR sA Hincl.
+  - simpl. split; [|reflexivity]. intros _. repeat split; try constructor; simpl; tauto.
+  - rewrite pass2_go_cons. cbn [fst].
+    split.
+    + intros H. apply app_eq_nil in H. destruct H as [H1 H]. apply app_eq_nil in H. destruct H as [H2 H].
+      apply app_eq_nil in H. destruct H as [H3 H4].
+      apply p2_d1_nil in H1. destruct H1 as [H1 H1']. apply p2_d2_nil in H2. apply p2_d3_nil in H3. destruct H3 as [H3 H3'].
+      unfold p2_sF, p2_sR in H4.
+      assert (E1 : smem (la_value a) fn = true) by (apply smem_In; assumption).
+      assert (E2 : smem (la_value a) sR = false) by (apply smem_false; assumption).
+      rewrite E1, E2 in H4.
+      apply IH in H4; [|intros z [<-|Hz]; [left; reflexivity | right; apply Hincl, Hz]].
+      destruct H4 as (G1 & G2 & G3 & G4 & G5 & G6).
+      assert (Hdisj : ~ (exists y, In y (real_alias_of a) /\ In y sA)).
+      { intros [y [Hy1 Hy2]]. destruct (H3' y Hy1). contradiction. }
+      unfold pvalues in *. cbn [map snd]. repeat split.
+      * intros v [<-|Hv]; auto.
+      * constructor; [|assumption]. intros Hv. apply (G3 _ Hv). left; reflexivity.
+      * intros v [<-|Hv]; [assumption|]. intros Hs. apply (G3 v Hv). right; assumption.
+      * intros ia [<-|Hia]; [assumption | auto].
+      * rewrite real_aliases_cons. apply NoDup_app_iff. repeat split; auto.
+        -- unfold real_alias_of. destruct (la_alias a) as [|[|c y]|]; repeat constructor; simpl; tauto.
+        -- intros x Hx1 Hx2. destruct (G6 x Hx2) as [Hn _]. apply Hn. apply p2_sA_In; auto.
+      * rewrite real_aliases_cons in H. apply in_app_or in H. destruct H as [H|H]; [apply H3', H|].
+        destruct (G6 x H) as [Hn _]. intros Hs. apply Hn. apply p2_sA_In; auto.
+      * rewrite real_aliases_cons in H. apply in_app_or in H. destruct H as [H|H]; [apply H3', H | apply G6, H].
+    + intros (G1 & G2 & G3 & G4 & G5 & G6). unfold pvalues in *. cbn [map snd] in *.
+      inversion G2 as [|? ? Hnot Hnd]; subst.
+      rewrite real_aliases_cons in G5, G6.
+      assert (H1 : p2_d1 fn sF i a = []).
+      { apply p2_d1_nil. split; [apply G1; left; reflexivity|]. intros Hs. apply (G3 (la_value a)); [left; reflexivity | apply Hincl, Hs]. }
+      assert (H2 : p2_d2 sR i a = []) by (apply p2_d2_nil, G3; left; reflexivity).
+      assert (H3 : p2_d3 url sA i a = []).
+      { apply p2_d3_nil. split; [apply (G4 (i, a)); left; reflexivity|]. intros x Hx. apply G6, in_or_app; left; assumption. }
+      rewrite H1, H2, H3. simpl.
+      unfold p2_sF, p2_sR.
+      assert (E1 : smem (la_value a) fn = true) by (apply smem_In, G1; left; reflexivity).
+      assert (E2 : smem (la_value a) sR = false) by (apply smem_false, G3; left; reflexivity).
+      rewrite E1, E2.
+      assert (Hdisj : ~ (exists y, In y (real_alias_of a) /\ In y sA)).
+      { intros [y [Hy1 Hy2]]. destruct (G6 y); [apply in_or_app; left; assumption | contradiction]. }
+      apply IH; [intros z [<-|Hz]; [left; reflexivity | right; apply Hincl, Hz]|].
+      repeat split.
+      * intros v Hv. apply G1. right; assumption.
+      * assumption.
+      * intros v Hv [<-|Hs]; [contradiction | apply (G3 v); [right; assumption | assumption]].
+      * intros ia Hia. apply G4. right; assumption.
+      * apply NoDup_app_iff in G5. tauto.
+      * intros Hs. apply p2_sA_In in Hs; auto. destruct Hs as [Hs|Hs].
+        -- apply NoDup_app_iff in G5. destruct G5 as (_ & _ & G5). apply (G5 x Hs H).
+        -- destruct (G6 x); [apply in_or_app; right; assumption | contradiction].
+      * apply G6, in_or_app; right; assumption.
+Qed.
+
+Lemma pass3_go_errors fn : forall l sF, all_errors (fst (pass3_go fn sF l)).
+Proof.
+  induction l as [|[i a] t IH]; intros sF; simpl; [apply all_errors_nil'|].
+  destruct (is_nil (la_value a)); [apply IH|].
+  destruct (smem (la_value a) fn); [apply IH|].
+  specialize (IH sF). destruct (pass3_go fn sF t). simpl in *. ae.
+Qed.
+
+Lemma pass3_nil fn : forall l sF,
+  fst (pass3_go fn sF l) = [] <-> (forall v, In v (pvalues l) -> v = [] \/ In v fn).
+Proof.
+  induction l as [|[i a] t IH]; intros sF; simpl.
+  - split; [intros _ v [] | reflexivity].
+  - destruct (is_nil (la_value a)) eqn:E0.
+    + apply is_nil_spec in E0. rewrite IH. split.
+      * intros H v [<-|Hv]; auto.
+      * intros H v Hv. apply H. right; assumption.
+    + destruct (smem (la_value a) fn) eqn:E1.
+      * apply smem_In in E1. rewrite IH. split.
+        -- intros H v [<-|Hv]; auto.
+        -- intros H v Hv. apply H. right; assumption.
+      * apply smem_false in E1. apply is_nil_false in E0.
+        destruct (pass3_go fn sF t). simpl. split; [discriminate|].
+        intros H. exfalso. destruct (H (la_value a)); [left; reflexivity | contradiction | contradiction].
+Qed.
+
+Lemma pass3_snd fn : forall l sF v,
+  In v (snd (pass3_go fn sF l)) <-> In v sF \/ (In v (pvalues l) /\ v <> [] /\ In v fn).
+Proof.
+  induction l as [|[i a] t IH]; intros sF v; simpl.
+  - tauto.
+  - destruct (is_nil (la_value a)) eqn:E0.
+    + apply is_nil_spec in E0. rewrite IH. split.
+      * intros [H|(H1 & H2 & H3)]; auto.
+      * intros [H|([<-|H1] & H2 & H3)]; auto. contradiction.
+    + apply is_nil_false in E0. destruct (smem (la_value a) fn) eqn:E1.
+      * apply smem_In in E1. rewrite IH. simpl. split.
+        -- intros [[<-|H]|(H1 & H2 & H3)]; auto.
+        -- intros [H|([<-|H1] & H2 & H3)]; auto.
+      * apply smem_false in E1. specialize (IH sF v). destruct (pass3_go fn sF t). simpl in *. rewrite IH. split.
+        -- intros [H|(H1 & H2 & H3)]; auto.
+        -- intros [H|([<-|H1] & H2 & H3)]; auto. contradiction.
+Qed.
+
+Lemma uniq_first_In x l : In x (uniq_first l) <-> In x l.
+Proof.
+  induction l as [|y t IH]; simpl; [tauto|].
+  rewrite filter_In, IH, negb_true_iff. split.
+  - intros [H|[H _]]; auto.
+  - intros [H|H]; auto. destruct (str_eqb y x) eqn:E.
+    + apply str_eqb_spec in E. auto.
+    + right. split; auto.
+Qed.
+
+Lemma pass4_errors r sF : all_errors (pass4 r sF).
+Proof.
+  unfold pass4. intros d Hd. apply in_flat_map in Hd. destruct Hd as [name [_ Hd]].
+  destruct (smem name sF); [destruct Hd|].
+  destruct (first_param name (indexed (r_params r))) as [[j p]|]; [|destruct Hd].
+  destruct (is_ctx p); [destruct Hd|]. destruct Hd as [<-|[]]. reflexivity.
+Qed.
+
+Lemma pass4_nil r sF :
+  pass4 r sF = [] <->
+  (forall name, In name (fnames r) -> In name sF \/
+     match first_param name (indexed (r_params r)) with Some (_, p) => is_ctx p = true | None => True end).
+Proof.
+  unfold pass4. split.
+  - intros H name Hn. apply (proj2 (uniq_first_In _ _)) in Hn.
+    assert (E : (if smem name sF then []
+        else match first_param name (indexed (r_params r)) with
+             | Some (j, p) => if is_ctx p then [] else [err CUnreferencedParam (AnParam j)]
+             | None => [] end) = []).
+    { destruct (smem name sF) eqn:E; [reflexivity|].
+      destruct (first_param name (indexed (r_params r))) as [[j p]|] eqn:F; [|reflexivity].
+      destruct (is_ctx p) eqn:C; [reflexivity|]. exfalso.
+      assert (Hin : In (err CUnreferencedParam (AnParam j))
+                (flat_map (fun name => if smem name sF then []
+                   else match first_param name (indexed (r_params r)) with
+                        | Some (j, p) => if is_ctx p then [] else [err CUnreferencedParam (AnParam j)]
+                        | None => [] end) (uniq_first (fnames r)))).
+      { apply in_flat_map. exists name. split; [assumption|]. rewrite E, F, C. left; reflexivity. }
+      rewrite H in Hin. destruct Hin. }
+    destruct (smem name sF) eqn:E1; [left; apply smem_In; assumption|]. right.
+    destruct (first_param name (indexed (r_params r))) as [[j p]|]; [|exact I].
+    destruct (is_ctx p); [reflexivity | discriminate].
+  - intros H. destruct (flat_map _ _) as [|d l] eqn:E; [reflexivity|]. exfalso.
+    assert (Hd : In d (d :: l)) by (left; reflexivity). rewrite <- E in Hd.
+    apply in_flat_map in Hd. destruct Hd as [name [Hn Hd]]. apply (proj1 (uniq_first_In _ _)) in Hn.
+    destruct (H name Hn) as [Hs|Hc].
+    + apply smem_In in Hs. rewrite Hs in Hd. destruct Hd.
+    + destruct (smem name sF); [destruct Hd|].
+      destruct (first_param name (indexed (r_params r))) as [[j p]|]; [|destruct Hd].
+      rewrite Hc in Hd. destruct Hd.
+Qed.
+
+Lemma dedup_first_In seen l d : In d (dedup_first seen l) -> In d l.
+Proof.
+  revert seen; induction l as [|x t IH]; intros seen; simpl; [tauto|].
+  destruct (mem diag_eqb x seen).
+  - intros H. right. eapply IH, H.
+  - intros [<-|H]; [left; reflexivity | right; eapply IH, H].
+Qed.
+
+Lemma dedup_first_nil l : dedup_first [] l = [] <-> l = [].
+Proof. destruct l; simpl; split; congruence. Qed.
+
+Lemma pass1_errors r : all_errors (pass1 r).
+Proof.
+  unfold pass1. destruct (flat_map alias_diag (path_attrs r)) as [|d l] eqn:E.
+  - apply url_go_errors.
+  - rewrite <- E. intros x Hx. apply in_flat_map in Hx. destruct Hx as [ia [_ Hx]].
+    unfold alias_diag in Hx. destruct (la_alias (snd ia)); try destruct Hx. subst. reflexivity. destruct H.
+Qed.
+
+Lemma link_raw_errors r : all_errors (link_raw r).
+Proof.
+  unfold link_raw.
+  pose proof (pass2_go_errors (fnames r) (link_url r) (path_attrs r) [] [] []) as H2.
+  destruct (pass2_go (fnames r) (link_url r) [] [] [] (path_attrs r)) as [d2 sf2].
+  pose proof (pass3_go_errors (fnames r) (nonpath_attrs r) sf2) as H3.
+  destruct (pass3_go (fnames r) sf2 (nonpath_attrs r)) as [d3 sf3].
+  simpl in *. repeat apply all_errors_app; auto using pass1_errors, pass4_errors.
+Qed.
+
+(* the link validator reports nothing exactly when its four passes report nothing *)
+Lemma link_diags_ok r :
+  no_error (link_diags r) = true <->
+  pass1 r = []
+  /\ fst (pass2_go (fnames r) (link_url r) [] [] [] (path_attrs r)) = []
+  /\ fst (pass3_go (fnames r) (snd (pass2_go (fnames r) (link_url r) [] [] [] (path_attrs r))) (nonpath_attrs r)) = []
+  /\ pass4 r (snd (pass3_go (fnames r) (snd (pass2_go (fnames r) (link_url r) [] [] [] (path_attrs r))) (nonpath_attrs r))) = [].
+Proof.
+  assert (E : link_raw r =
+    pass1 r ++ fst (pass2_go (fnames r) (link_url r) [] [] [] (path_attrs r))
+    ++ fst (pass3_go (fnames r) (snd (pass2_go (fnames r) (link_url r) [] [] [] (path_attrs r))) (nonpath_attrs r))
+    ++ pass4 r (snd (pass3_go (fnames r) (snd (pass2_go (fnames r) (link_url r) [] [] [] (path_attrs r))) (nonpath_attrs r)))).
+  { unfold link_raw. destruct (pass2_go (fnames r) (link_url r) [] [] [] (path_attrs r)) as [d2 sf2]. simpl.
+    destruct (pass3_go (fnames r) sf2 (nonpath_attrs r)) as [d3 sf3]. reflexivity. }
+  unfold link_diags. split.
+  - intros H. assert (Hn : dedup_first [] (link_raw r) = []).
+    { apply all_errors_nil; [|assumption]. intros d Hd. apply (link_raw_errors r d). eapply dedup_first_In, Hd. }
+    apply (proj1 (dedup_first_nil _)) in Hn. rewrite E in Hn.
+    apply app_eq_nil in Hn. destruct Hn as [H1 Hn]. apply app_eq_nil in Hn. destruct Hn as [H2 Hn].
+    apply app_eq_nil in Hn. tauto.
+  - intros (H1 & H2 & H3 & H4). rewrite E, H1, H2, H3, H4. reflexivity.
+Qed.
+
+(* ---------------------------------------------------------------- lookups *)
+
+Lemma first_by_value_some v attrs a :
+  first_by_value v attrs = Some a -> In a attrs /\ la_value a = v.
+Proof.
+  unfold first_by_value. intros H. apply find_some in H. destruct H as [H1 H2].
+  apply str_eqb_spec in H2. auto.
+Qed.
+
+Lemma first_by_value_none v attrs :
+  first_by_value v attrs = None <-> ~ In v (map la_value attrs).
+Proof.
+  unfold first_by_value. induction attrs as [|x t IH]; simpl; [tauto|].
+  destruct (str_eqb (la_value x) v) eqn:E.
+  - apply str_eqb_spec in E. split; [discriminate | intros H; exfalso; apply H; auto].
+  - apply str_eqb_neq in E. rewrite IH. tauto.
+Qed.
+
+Lemma first_by_value_app pre a post :
+  ~ In (la_value a) (map la_value pre) -> first_by_value (la_value a) (pre ++ a :: post) = Some a.
+Proof.
+  unfold first_by_value. induction pre as [|x t IH]; simpl; intros H.
+  - rewrite str_eqb_refl. reflexivity.
+  - destruct (str_eqb (la_value x) (la_value a)) eqn:E.
+    + apply str_eqb_spec in E. exfalso. apply H. left; assumption.
+    + apply IH. intros Hi. apply H. right; assumption.
+Qed.
+
+Lemma find_param_some v r p : find_param v r = Some p -> In p (r_params r) /\ fp_name p = v.
+Proof.
+  unfold find_param. intros H. apply find_some in H. destruct H as [H1 H2].
+  apply str_eqb_spec in H2. auto.
+Qed.
+
+Lemma find_param_In v r : In v (fnames r) <-> exists p, find_param v r = Some p.
+Proof.
+  unfold find_param, fnames. induction (r_params r) as [|x t IH]; simpl.
+  - split; [tauto | intros [p H]; discriminate].
+  - destruct (str_eqb (fp_name x) v) eqn:E.
+    + apply str_eqb_spec in E. split; [intros _; eauto | auto].
+    + apply str_eqb_neq in E. rewrite <- IH. tauto.
+Qed.
+
+Lemma find_param_nodup r p :
+  NoDup (fnames r) -> In p (r_params r) -> find_param (fp_name p) r = Some p.
+Proof.
+  unfold find_param, fnames. induction (r_params r) as [|x t IH]; simpl; intros Hn Hp; [destruct Hp|].
+  inversion Hn as [|? ? Hx Hd]; subst. destruct Hp as [->|Hp].
+  - rewrite str_eqb_refl. reflexivity.
+  - destruct (str_eqb (fp_name x) (fp_name p)) eqn:E.
+    + apply str_eqb_spec in E. exfalso. apply Hx. rewrite E. apply in_map. assumption.
+    + apply IH; assumption.
+Qed.
+
+Lemma first_param_some name l j p :
+  first_param name l = Some (j, p) -> In (j, p) l /\ fp_name p = name.
+Proof.
+  unfold first_param. intros H. apply find_some in H. destruct H as [H1 H2]. apply str_eqb_spec in H2. auto.
+Qed.
+
+Lemma first_param_In name i ps :
+  In name (map fp_name ps) -> exists j p, first_param name (index_from i ps) = Some (j, p).
+Proof.
+  unfold first_param. revert i; induction ps as [|x t IH]; intros i; simpl; [tauto|].
+  intros [E|H].
+  - rewrite E, str_eqb_refl. eauto.
+  - destruct (str_eqb (fp_name x) name); [eauto | apply IH, H].
+Qed.
+
+Lemma filter_le1 {A} (f : A -> bool) l x y :
+  (List.length (filter f l) <= 1)%nat -> In x l -> In y l -> f x = true -> f y = true -> x = y.
+Proof.
+  induction l as [|z t IH]; simpl; intros Hl Hx Hy Fx Fy; [destruct Hx|].
+  destruct (f z) eqn:Fz; simpl in Hl.
+  - assert (Ht : filter f t = []) by (destruct (filter f t); [reflexivity | simpl in Hl; lia]).
+    assert (Hno : forall w, In w t -> f w = true -> False).
+    { intros w Hw Fw. assert (In w (filter f t)) by (apply filter_In; auto). rewrite Ht in H. destruct H. }
+    destruct Hx as [<-|Hx], Hy as [<-|Hy]; try reflexivity; exfalso; eauto.
+  - destruct Hx as [<-|Hx]; [congruence|]. destruct Hy as [<-|Hy]; [congruence|]. auto.
+Qed.
+
+Lemma filter_nil_iff {A} (f : A -> bool) l : filter f l = [] <-> forall x, In x l -> f x = false.
+Proof.
+  induction l as [|z t IH]; simpl; [split; [intros _ x [] | reflexivity]|].
+  destruct (f z) eqn:Fz.
+  - split; [discriminate|]. intros H. rewrite (H z) in Fz; [discriminate | auto].
+  - rewrite IH. split; [intros H x [<-|Hx]; auto | intros H x Hx; auto].
+Qed.
+
+(* at most one element satisfies f when no element satisfying f is preceded by another one *)
+Lemma filter_le1_intro {A} (f : A -> bool) l :
+  (forall l1 a l2, l = l1 ++ a :: l2 -> f a = true -> forall b, In b l1 -> f b = false) ->
+  (List.length (filter f l) <= 1)%nat.
+Proof.
+  induction l as [|z t IH] using rev_ind; intros H; simpl; [lia|].
+  rewrite filter_app. rewrite app_length. simpl. destruct (f z) eqn:Fz; simpl.
+  - assert (Ht : filter f t = []).
+    { apply filter_nil_iff. intros x Hx. apply (H t z [] eq_refl Fz x Hx). }
+    rewrite Ht. simpl. lia.
+  - rewrite Nat.add_0_r. apply IH. intros l1 a l2 E Fa b Hb. subst t.
+    apply (H l1 a (l2 ++ [z])); [rewrite <- app_assoc; reflexivity | assumption | assumption].
+Qed.
+
+(* ---------------------------------------------------------------- validateParams *)
+
+Definition pi_of (attrs : list lattr) (p : fparam) : list passed :=
+  if is_ctx p then []
+  else match first_by_value (fp_name p) attrs with
+       | Some a => match passed_of (la_kind a) with Some pi => [pi] | None => [] end
+       | None => []
+       end.
+
+Definition pis (attrs : list lattr) (l : list (nat * fparam)) : list passed :=
+  flat_map (fun jp => pi_of attrs (snd jp)) l.
+
+Definition type_diag (j : nat) (p : fparam) (pi : passed) : list diag :=
+  match pi with PBody => validate_body_param j p | _ => validate_nonbody_param j p pi end.
+
+Definition bodies (l : list passed) : nat := List.length (filter is_pbody l).
+Definition forms (l : list passed) : nat := List.length (filter is_pform l).
+
+Lemma bodies_app a b : bodies (a ++ b) = bodies a + bodies b.
+Proof. unfold bodies. rewrite filter_app, app_length. reflexivity. Qed.
+Lemma forms_app a b : forms (a ++ b) = forms a + forms b.
+Proof. unfold forms. rewrite filter_app, app_length. reflexivity. Qed.
+
+Lemma existsb_count {A} (f : A -> bool) l : existsb f l = false <-> List.length (filter f l) = 0.
+Proof.
+  induction l as [|x t IH]; simpl; [tauto|]. destruct (f x); simpl; [split; [discriminate | lia] | exact IH].
+Qed.
+
+Lemma type_diag_errors j p pi : all_errors (type_diag j p pi).
+Proof.
+  unfold type_diag, validate_body_param, validate_nonbody_param. destruct pi; ae.
+Qed.
+
+Lemma validate_combination_errors pr j pi : all_errors (validate_combination pr j pi).
+Proof. unfold validate_combination. destruct pi; ae. Qed.
+
+Lemma params_go_cons attrs processed j p t :
+  params_go attrs processed ((j, p) :: t) =
+  match pi_of attrs p with
+  | [] => if is_ctx p then params_go attrs processed t
+          else match first_by_value (fp_name p) attrs with
+               | None => params_go attrs processed t
+               | Some _ => None
+               end
+  | pi :: _ =>
+      match params_go attrs (processed ++ [pi]) t with
+      | None => None
+      | Some rest => Some (type_diag j p pi ++ validate_combination processed j pi ++ rest)
+      end
+  end.
+Proof.
+  cbn [params_go]. unfold pi_of, type_diag. destruct (is_ctx p); [reflexivity|].
+  destruct (first_by_value (fp_name p) attrs) as [a|]; [|reflexivity].
+  destruct (passed_of (la_kind a)) as [pi|]; [|reflexivity].
+  destruct (params_go attrs (processed ++ [pi]) t); [|reflexivity]. destruct pi; reflexivity.
+Qed.
+
+(* what a clean run of validateParams tells *)
+Lemma params_go_sound attrs : forall l processed d,
+  params_go attrs processed l = Some d -> no_error d = true ->
+  (bodies processed <= 1)%nat ->
+  (forall j p a, In (j, p) l -> is_ctx p = false -> first_by_value (fp_name p) attrs = Some a ->
+     exists pi, passed_of (la_kind a) = Some pi /\ type_diag j p pi = [])
+  /\ (bodies (processed ++ pis attrs l) <= 1)%nat.
+Proof.
+  induction l as [|[j p] t IH]; intros processed d Hgo Hne Hb.
+  - split; [intros j p a []|]. simpl. rewrite app_nil_r. assumption.
+  - rewrite params_go_cons in Hgo. unfold pis. cbn [flat_map snd]. fold (pis attrs t).
+    destruct (pi_of attrs p) as [|pi rest] eqn:Epi.
+    + assert (Hskip : params_go attrs processed t = Some d /\
+                      (is_ctx p = false -> first_by_value (fp_name p) attrs = None)).
+      { destruct (is_ctx p); [split; [assumption | discriminate]|].
+        destruct (first_by_value (fp_name p) attrs); [discriminate | auto]. }
+      destruct Hskip as [Hgo' Hnone]. destruct (IH processed d Hgo' Hne Hb) as [IH1 IH2].
+      split; [|simpl; assumption].
+      intros j' p' a [E|Hin] Hc Hf; [|eauto]. inversion E; subst. rewrite (Hnone Hc) in Hf. discriminate.
+    + destruct (params_go attrs (processed ++ [pi]) t) as [dt|] eqn:Egt; [|discriminate].
+      inversion Hgo; subst d. rewrite !no_error_app in Hne.
+      apply andb_true_iff in Hne. destruct Hne as [Ht Hne]. apply andb_true_iff in Hne. destruct Hne as [Hc Hr].
+      assert (Ht0 : type_diag j p pi = []) by (apply all_errors_nil; [apply type_diag_errors | assumption]).
+      assert (Hc0 : validate_combination processed j pi = [])
+        by (apply all_errors_nil; [apply validate_combination_errors | assumption]).
+      assert (Hrest : rest = []).
+      { unfold pi_of in Epi. destruct (is_ctx p); [discriminate|].
+        destruct (first_by_value (fp_name p) attrs) as [a|]; [|discriminate].
+        destruct (passed_of (la_kind a)); inversion Epi; reflexivity. }
+      subst rest.
+      assert (Hb' : (bodies (processed ++ [pi]) <= 1)%nat).
+      { rewrite bodies_app. unfold validate_combination in Hc0. destruct pi; unfold bodies at 2; simpl; try lia.
+        destruct (existsb is_pbody processed) eqn:Eb; [discriminate|].
+        apply existsb_count in Eb. unfold bodies. lia. }
+      destruct (IH (processed ++ [pi]) dt Egt Hr Hb') as [IH1 IH2].
+      split.
+      * intros j' p' a [E|Hin] Hctx Hf; [|eauto]. inversion E; subst j' p'.
+        unfold pi_of in Epi. rewrite Hctx, Hf in Epi.
+        destruct (passed_of (la_kind a)) as [pi'|]; [|discriminate]. inversion Epi; subst. eauto.
+      * rewrite <- app_assoc in IH2. exact IH2.
+Qed.
+
+Definition combo_ok (l : list passed) : Prop :=
+  (bodies l <= 1)%nat /\ (bodies l = 0 \/ forms l = 0)%nat.
+
+Lemma params_go_complete attrs : forall l processed,
+  (forall j p, In (j, p) l -> is_ctx p = false ->
+     exists a pi, first_by_value (fp_name p) attrs = Some a /\ passed_of (la_kind a) = Some pi /\ type_diag j p pi = []) ->
+  combo_ok (processed ++ pis attrs l) ->
+  params_go attrs processed l = Some [].
+Proof.
+  induction l as [|[j p] t IH]; intros processed H Hc; [reflexivity|].
+  rewrite params_go_cons. unfold pis in Hc. cbn [flat_map snd] in Hc. fold (pis attrs t) in Hc.
+  destruct (is_ctx p) eqn:Ectx.
+  - unfold pi_of in *. rewrite Ectx in *. simpl in Hc. apply IH; [|assumption].
+    intros j' p' Hin. apply H. right; assumption.
+  - destruct (H j p (or_introl eq_refl) Ectx) as (a & pi & Hf & Hp & Ht).
+    assert (Epi : pi_of attrs p = [pi]) by (unfold pi_of; rewrite Ectx, Hf, Hp; reflexivity).
+    rewrite Epi in *. rewrite (IH (processed ++ [pi])).
+    + rewrite Ht. simpl. rewrite app_nil_r.
+      assert (Hv : validate_combination processed j pi = []).
+      { destruct Hc as [Hc1 Hc2]. rewrite bodies_app in *. rewrite forms_app in Hc2.
+        unfold validate_combination. destruct pi; try reflexivity.
+        - destruct (existsb is_pbody processed) eqn:E1.
+          + exfalso. assert (bodies processed <> 0) by (unfold bodies; intros E0; apply existsb_count in E0; congruence).
+            rewrite bodies_app in Hc1. unfold bodies at 2 in Hc1. simpl in Hc1. lia.
+          + destruct (existsb is_pform processed) eqn:E2; [|reflexivity].
+            exfalso. assert (forms processed <> 0) by (unfold forms; intros E0; apply existsb_count in E0; congruence).
+            rewrite bodies_app in Hc2. unfold bodies at 2 in Hc2. simpl in Hc2. lia.
+        - destruct (existsb is_pbody processed) eqn:E1; [|reflexivity].
+          exfalso. assert (bodies processed <> 0) by (unfold bodies; intros E0; apply existsb_count in E0; congruence).
+          rewrite forms_app in Hc2. unfold forms at 2 in Hc2. simpl in Hc2. lia. }
+      rewrite Hv. reflexivity.
+    + intros j' p' Hin. apply H. right; assumption.
+    + rewrite <- app_assoc. exact Hc.
+Qed.
+
+(* ---------------------------------------------------------------- views of the attribute list *)
+
+Lemma filter_indexed {A} (f : A -> bool) i (l : list A) :
+  map snd (filter (fun ia => f (snd ia)) (index_from i l)) = filter f l.
+Proof.
+  revert i; induction l as [|x t IH]; intros i; simpl; [reflexivity|].
+  destruct (f x); simpl; rewrite IH; reflexivity.
+Qed.
+
+Lemma path_attrs_snd r : map snd (path_attrs r) = attrs_of KPath r.
+Proof. unfold path_attrs, attrs_of, indexed. apply filter_indexed. Qed.
+
+Lemma pvalues_map l : pvalues l = map la_value (map snd l).
+Proof. unfold pvalues. rewrite map_map. reflexivity. Qed.
+
+Lemma real_aliases_map l : real_aliases l = flat_map real_alias_of (map snd l).
+Proof.
+  unfold real_aliases. induction l as [|x t IH]; simpl; [reflexivity|]. rewrite IH. reflexivity.
+Qed.
+
+Lemma filter_filter {A} (f g : A -> bool) l : filter f (filter g l) = filter (fun x => g x && f x) l.
+Proof.
+  induction l as [|x t IH]; simpl; [reflexivity|]. destruct (g x); simpl; [destruct (f x)|]; rewrite IH; reflexivity.
+Qed.
+
+Lemma find_filter {A} (f : A -> bool) l : find f l = hd_error (filter f l).
+Proof. induction l as [|x t IH]; simpl; [reflexivity|]. destruct (f x); [reflexivity | exact IH]. Qed.
+
+Lemma nonpath_attrs_In r a :
+  In a (r_attrs r) -> is_nonpath_kind (la_kind a) = true -> is_blank (la_value a) = false ->
+  In (la_value a) (pvalues (nonpath_attrs r)).
+Proof.
+  intros Hin Hk Hb. destruct (In_index_from 0 _ _ Hin) as [i Hi].
+  unfold pvalues. apply in_map_iff. exists (i, a). split; [reflexivity|].
+  unfold nonpath_attrs. apply filter_In. split; [exact Hi|]. simpl. rewrite Hk, Hb. reflexivity.
+Qed.
+
+Lemma nonpath_attrs_inv r v :
+  In v (pvalues (nonpath_attrs r)) ->
+  exists a, In a (r_attrs r) /\ la_value a = v /\ is_nonpath_kind (la_kind a) = true /\ is_blank v = false.
+Proof.
+  unfold pvalues. intros H. apply in_map_iff in H. destruct H as [[i a] [E H]]. simpl in E. subst v.
+  unfold nonpath_attrs in H. apply filter_In in H. destruct H as [H1 H2]. simpl in H2.
+  apply andb_true_iff in H2. destruct H2 as [H2 H3]. apply negb_true_iff in H3.
+  exists a. repeat split; auto. eapply index_from_In, H1.
+Qed.
+
+Lemma attrs_of_In k r a : In a (attrs_of k r) <-> In a (r_attrs r) /\ la_kind a = k.
+Proof. unfold attrs_of. rewrite filter_In, kind_is_spec. tauto. Qed.
+
+Lemma param_attrs_In r a : In a (param_attrs r) <-> In a (r_attrs r) /\ is_param_kind (la_kind a) = true.
+Proof. unfold param_attrs. rewrite filter_In. tauto. Qed.
+
+Lemma path_pvalues r : pvalues (path_attrs r) = map la_value (attrs_of KPath r).
+Proof. rewrite pvalues_map, path_attrs_snd. reflexivity. Qed.
+
+(* exactly one @Route: the link validator and the outputs read the same template *)
+Lemma single_route r a :
+  attrs_of KRoute r = [a] -> link_url r = template_names (la_value a) /\ the_route r = la_value a.
+Proof.
+  intros H. split.
+  - unfold link_url, link_route.
+    assert (E : map snd (filter (fun ia => kind_is KRoute (snd ia)) (indexed (r_attrs r))) = [a]).
+    { unfold indexed. rewrite filter_indexed. exact H. }
+    destruct (filter (fun ia => kind_is KRoute (snd ia)) (indexed (r_attrs r))) as [|[i b] [|y t]]; try discriminate.
+    simpl in E. inversion E; subst. simpl. apply extract_url_params_spec.
+  - unfold the_route, first_value. rewrite find_filter. unfold attrs_of in H. rewrite H. reflexivity.
+Qed.
+
+Lemma template_names_slash t : template_names (x2f :: t) = template_names t.
+Proof. reflexivity. Qed.
+
+Lemma full_template_names r :
+  has_brace (r_prefix r) = false -> template_names (full_template r) = template_names (the_route r).
+Proof.
+  intros H. unfold full_template. rewrite template_names_no_brace by assumption. apply template_names_slash.
+Qed.
+
+Lemma nodup_name_eq ps p p' :
+  NoDup (map fp_name ps) -> In p ps -> In p' ps -> fp_name p = fp_name p' -> p = p'.
+Proof.
+  induction ps as [|x t IH]; simpl; intros Hn Hp Hp' E; [destruct Hp|].
+  inversion Hn as [|? ? Hx Hd]; subst.
+  destruct Hp as [->|Hp], Hp' as [->|Hp']; auto.
+  - exfalso. apply Hx. rewrite E. apply in_map; assumption.
+  - exfalso. apply Hx. rewrite <- E. apply in_map; assumption.
+Qed.
+
+Lemma pis_index attrs i l : pis attrs (index_from i l) = flat_map (pi_of attrs) l.
+Proof.
+  revert i; induction l as [|x t IH]; intros i; simpl; [reflexivity|]. unfold pis in *. simpl. rewrite IH. reflexivity.
+Qed.
+
+Lemma bodies_flat_one attrs l x :
+  In x l -> pi_of attrs x = [PBody] -> (1 <= bodies (flat_map (pi_of attrs) l))%nat.
+Proof.
+  intros Hin E. apply in_split in Hin. destruct Hin as [l1 [l2 ->]].
+  rewrite flat_map_app. simpl. rewrite E. rewrite bodies_app. simpl. unfold bodies at 2. simpl. lia.
+Qed.
+
+Lemma bodies_flat_two attrs l x y :
+  In x l -> In y l -> x <> y -> pi_of attrs x = [PBody] -> pi_of attrs y = [PBody] ->
+  (2 <= bodies (flat_map (pi_of attrs) l))%nat.
+Proof.
+  intros Hx Hy Hne Ex Ey. apply in_split in Hx. destruct Hx as [l1 [l2 ->]].
+  rewrite flat_map_app. simpl. rewrite Ex. rewrite bodies_app. simpl.
+  assert (Hy' : In y l1 \/ In y l2).
+  { apply in_app_or in Hy. destruct Hy as [Hy|[Hy|Hy]]; auto. congruence. }
+  rewrite bodies_app. unfold bodies at 2. simpl.
+  destruct Hy' as [Hy'|Hy'].
+  - pose proof (bodies_flat_one attrs l1 y Hy' Ey). lia.
+  - pose proof (bodies_flat_one attrs l2 y Hy' Ey). lia.
+Qed.
